@@ -341,7 +341,8 @@ class _Flattener:
                     return pre + [_one_shot(body, s)]
         # a helper call nested in an unconditionally evaluated position of a simple statement (`f(x, helper(y))`) whose body is more than one
         # `return <expr>`: hoist it into a temporary (`t = helper(y); f(x, t)`) and inline the assignment (analysis-only rewrite)
-        if isinstance(s, (ast.Expr, ast.Assign, ast.AnnAssign, ast.Return, ast.AugAssign)) and getattr(s, "value", None) is not None:
+        if (isinstance(s, (ast.Expr, ast.Assign, ast.AnnAssign, ast.Return, ast.AugAssign)) and getattr(s, "value", None) is not None) or (
+                isinstance(s, ast.Raise) and s.exc is not None):
             h = self._hoist(s, call, stack)
             if h is not None:
                 out: List[ast.stmt] = []
@@ -373,7 +374,8 @@ class _Flattener:
             for ch in ast.iter_child_nodes(e):
                 scan(ch)
 
-        scan(s.value)  # type: ignore[attr-defined]
+        fld = "exc" if isinstance(s, ast.Raise) else "value"
+        scan(getattr(s, fld))
         if not found:
             return None
         self.count += 1
@@ -387,7 +389,7 @@ class _Flattener:
                 return self.generic_visit(c)
 
         pre = ast.copy_location(ast.Assign(targets=[ast.Name(id=tmp, ctx=ast.Store())], value=target_call, lineno=s.lineno), s)
-        s.value = R().visit(s.value)  # type: ignore[attr-defined]
+        setattr(s, fld, R().visit(getattr(s, fld)))
         return [ast.fix_missing_locations(pre), s]
 
     def expr_inline(self, s: ast.stmt, stack: Tuple[str, ...]) -> ast.stmt:
